@@ -52,3 +52,13 @@ def compare(rec, site, got, allowed, **info):
         if g not in a:
             rec.fail(site, f"index {i}: got flag {g}, property allows {sorted(a)}",
                      expected=[sorted(s) for s in allowed], got=got, index=i, got_flag=g, allowed=sorted(a), **info)
+
+
+def carr(case, xs):
+    """The series xs in the carrier the case asks for (default: float64 ndarray with NaN). The logical content is the
+    same in every carrier, so reference models are unaffected."""
+    from . import carriers
+    kind = case.get("carrier", "f64")
+    if kind == "f64":
+        return arr(xs)
+    return carriers.data(xs, kind, case.get("junk", 0.0))
